@@ -248,15 +248,45 @@ func runC11(c *Ctx) {
 						}
 					}
 				}
-				same := false
-				for _, call := range callsIn(f, func(call ssa.CallInstruction) bool {
-					cal := call.Common().StaticCallee()
-					return cal != nil && gates[cal]
-				}) {
-					for _, a := range call.Common().Args {
-						if a == objPath {
-							same = true
+				// the name recorded, seen from the function that calls the gate: the value itself, or — when the
+				// entry is built by a helper that receives the name — the argument each caller passes
+				type site struct {
+					fn  *ssa.Function
+					val ssa.Value
+				}
+				sites := []site{{f, objPath}}
+				if p, isParam := objPath.(*ssa.Parameter); isParam {
+					sites = nil
+					idx := -1
+					for i, q := range f.Params {
+						if q == p {
+							idx = i
 						}
+					}
+					if n := c.P.CallGraph().Nodes[f]; n != nil && idx >= 0 {
+						for _, e := range n.In {
+							if e.Site == nil || e.Caller.Func == nil || e.Site.Common().IsInvoke() || e.Site.Common().StaticCallee() != f || idx >= len(e.Site.Common().Args) {
+								continue
+							}
+							sites = append(sites, site{e.Caller.Func, e.Site.Common().Args[idx]})
+						}
+					}
+				}
+				same := len(sites) > 0
+				for _, st := range sites {
+					found := false
+					for _, call := range callsIn(st.fn, func(call ssa.CallInstruction) bool {
+						cal := call.Common().StaticCallee()
+						return cal != nil && gates[cal]
+					}) {
+						for _, a := range call.Common().Args {
+							if a == st.val {
+								found = true
+							}
+						}
+					}
+					if !found {
+						same = false
 					}
 				}
 				c.S.Check(same, "R4b", load.FuncName(f)+":manifest entry.ObjectPath", c.pos(al.Pos()), "entry records the object name handed to the gate", "manifest entry records an object name other than the one uploaded through the gate")
@@ -281,7 +311,13 @@ func runC11(c *Ctx) {
 			bClose
 		)
 		r := &esp.Rule{Name: "C11.R6"}
-		r.Relevant = func(f *ssa.Function) bool { return f.Parent() == wf }
+		wfRegion := map[*ssa.Function]bool{}
+		for _, g := range unexportedRegion(wf) {
+			if g != wf {
+				wfRegion[g] = true
+			}
+		}
+		r.Relevant = func(f *ssa.Function) bool { return f.Parent() == wf || wfRegion[f] }
 		nClose := 0
 		r.Match = func(in ssa.Instruction) []esp.Ev {
 			call, ok := in.(ssa.CallInstruction)
@@ -490,8 +526,14 @@ func (c *Ctx) uploadEntryRule(rule string, gates map[*ssa.Function]bool, finClos
 			bGate uint = iota
 			bAppended
 		)
+		region := map[*ssa.Function]bool{}
+		for _, g := range unexportedRegion(f) {
+			if g != f && !gates[g] {
+				region[g] = true
+			}
+		}
 		r := &esp.Rule{Name: "C11.R7"}
-		r.Relevant = func(*ssa.Function) bool { return false }
+		r.Relevant = func(g *ssa.Function) bool { return region[g] }
 		r.Flag = func(v ssa.Value) (int, bool) {
 			for i, l := range lookups {
 				if v == l && i < 8 {
